@@ -44,7 +44,10 @@ def model_runs(tier):
     """waves of (cfg, expectation, workers); the runs of a wave execute concurrently"""
     waves = [[("IncludeReq", "hold", 5), ("IncludeAswFit", "hold", 5), ("IncludeReq3", "hold", 3), ("IncludeAswFit3", "hold", 3)],
              [("IncludeAswPack", "violate", 2), ("IncludeAswTbl", "violate", 2), ("IncludeAswEof", "violate", 3),
-              ("IncludeNoLimit", "violate", 2), ("IncludeReqMac", "hold+cov", 3), ("IncludeShift:IncludeShiftReq", "hold", 4)]]
+              ("IncludeNoLimit", "violate", 2), ("IncludeReqMac", "hold+cov", 3), ("IncludeShift:IncludeShiftReq", "hold", 4)],
+             # the report (spec/Report.tla): what comsg.c prints = the required report for every choice of messages;
+             # grouping by the local line number alone and the heading as written must each be refuted
+             [("Report:ReportReq", "hold", 6), ("Report:ReportLline", "violate", 2), ("Report:ReportAswHead", "violate", 2)]]
     if tier == "thorough":
         waves += [[("IncludeReq5", "hold", 8), ("IncludeAswFit5", "hold", 8)],
                   [("IncludeShift:IncludeShiftAsw", "hold", 8), ("IncludeShift:IncludeShiftAswPack", "violate", 2), ("IncludeAswPackFit", "hold", 6)],
@@ -169,6 +172,96 @@ def families(tier, rng):
     return fams
 
 
+# --------------------------------------------------------------------------
+# report layouts enumerated by TLC (spec/ReportGen.tla)
+
+GEN_CFGS = {"quick": [("ReportGen", 4)], "thorough": [("ReportGen", 4), ("ReportGen3", 8), ("ReportGenL", 8)]}
+GEN_SAMPLE = {"quick": 110, "thorough": 2500}
+STANDIN_LINES = 6      # lines of a file that is only named by #line (so some renumbered lines exist on disk, some do not)
+
+# statements planted on one remembered line: (kind, column or None, pad)
+LINE_PATTERNS = [
+    [("bare", None, "lead")],
+    [("bare", None, "lead"), ("bare", 30, "lead")],
+    [("bare", 3, "lead"), ("funny", 24, "lead")],
+    [("funny", None, "lead")],
+    [("undef", 100, "lead")],                      # longer than the report's width: heading on a line of its own
+    [("bare", 17, "tab")],                         # the echoed text is shown with the tabs expanded
+    [("funny", 9, "lead"), ("bare", 40, "lead")],
+    [("bare", None, "lead"), ("bare", 12, "lead"), ("bare", 50, "lead")],
+]
+
+
+def tlc_layouts(chk, tier):
+    """Final states of the generator in which two remembered lines have the same line number."""
+    out = []
+    for cfg, workers in GEN_CFGS[tier]:
+        r = vlib.tlc("ReportGen", cfg, workers=workers, timeout=1500, extra=NOEXTRA, xmx="6g")
+        chk.add_tlc(cfg, r)
+        if r.violated:
+            chk.violation("model %s: invariant %s violated" % (cfg, r.violated), r.trace_text, key={"model": cfg, "inv": r.violated})
+            continue
+        n = 0
+        for s in r.printed:
+            if isinstance(s, str) and s.startswith("CASE "):
+                d = json.loads(s[5:])
+                d["cfg"] = cfg
+                out.append(d)
+                n += 1
+        if n == 0:
+            raise vlib.MachineryError("generator %s exported no layout" % cfg)
+    return out
+
+
+def layout_class(d):
+    """coarse signature used to spread the sample: which kinds of items, how many files, how the clash arises"""
+    kinds = "".join({"lines": "L", "include": "I", "line": "D", "eof": "E"}.get(h["k"], "?") for h in d["hist"])
+    named = sorted({h["f"] for h in d["hist"] if h["k"] == "line" and h["f"]})
+    return "%s|%d|%s" % (kinds, d["nfiles"], ",".join(named))
+
+
+def gen_families(chk, tier, rng):
+    lay = tlc_layouts(chk, tier)
+    lay.sort(key=lambda d: json.dumps(d, sort_keys=True))       # TLC's output order depends on its workers
+    byclass = {}
+    for d in lay:
+        byclass.setdefault(layout_class(d), []).append(d)
+    classes = sorted(byclass)
+    rng.shuffle(classes)
+    picked, want = [], min(GEN_SAMPLE[tier], len(lay))
+    while len(picked) < want:                                  # round robin over the classes
+        for cl in classes:
+            if byclass[cl] and len(picked) < want:
+                picked.append(byclass[cl].pop(rng.randrange(len(byclass[cl]))))
+    fams = []
+    names = set()
+    for n, d in enumerate(picked):
+        if rng.random() < 0.5:
+            lines = list(d["lines"])                           # every remembered line carries messages
+            how = "all"
+        else:
+            pair = rng.choice(sorted(map(tuple, d["clash"])))
+            lines = sorted(set(pair))                          # only two lines with the same line number
+            how = "pair"
+        faults, plan = [], {}
+        for g in lines:
+            pat = rng.choice(LINE_PATTERNS)
+            plan[str(g)] = []
+            for kind, col, pad in pat:
+                faults.append(G.Fault(kind, len(faults) + 1, col=col, pad=pad))
+                plan[str(g)].append(len(faults) - 1)
+        top = d["hist"][0]["file"] if d["hist"] else "ra.as"
+        real = {h["file"] for h in d["hist"]}
+        standins = {h["f"]: STANDIN_LINES for h in d["hist"] if h["k"] == "line" and h["f"] and h["f"] not in real}
+        fkey = "gen%d/%s/%s" % (n, how, "+".join(f.key() for f in faults))
+        kw = dict(hist=d["hist"], plan=plan, top=top, standins=standins, tail=rng.choice([0, 2, 2, 3]))
+        fams.append((fkey, faults, "sem", [("same", dict(k=0, where=1, style="blank")), ("gen", kw)]))
+        names.add(layout_class(d))
+    chk.extra["gen_layouts"] = {"exported_by_tlc": len(lay), "classes": len(classes), "replayed": len(picked),
+                                "classes_replayed": len(names)}
+    return fams
+
+
 def overflowing(faults):
     return any(f.col >= 16384 for f in faults)
 
@@ -226,20 +319,69 @@ class Interner(object):
         return self.tab.setdefault(s, len(self.tab) + 1)
 
 
+EXTRA_STYLES = {"nosort": (["-Mno-sort"], False, False), "preview": (["-Mpreview"], True, True), "m2": (["-M2"], True, False)}
+
+
+def disk_facts(d, texts):
+    """What the report can show: the number of lines of every file in the case's directory and the text of
+    the lines named by the headings of the printed reports (looked up at the heading's OWN file and line)."""
+    flen, cache, srcs = {}, {}, {}
+    for root, _, files in os.walk(d):
+        for f in files:
+            if f.endswith((".as", ".src")):
+                p = os.path.join(root, f)
+                with open(p, "rb") as fh:
+                    flen[os.path.relpath(p, d)] = fh.read().count(b"\n")
+    for t in texts:
+        for fn, ln in G.headings(t):
+            if fn not in cache:
+                p = os.path.join(d, fn)
+                cache[fn] = open(p, errors="replace").read().split("\n")[:-1] if os.path.isfile(p) else None
+            ls = cache[fn]
+            srcs[(fn, ln)] = ls[ln - 1] if (ls is not None and 1 <= ln <= len(ls)) else None
+    return flen, srcs
+
+
 def compile_case(build, case):
     d = vlib.scratch("c15")
     try:
         G.render_case(case, d)
         outs = []
-        for extra in ([], ["-Mno-source"]):
+        for extra in [[], ["-Mno-source"]] + [EXTRA_STYLES[x][0] for x in case.get("styles", [])]:
             rc, so, se, to = vlib.aldor(build, extra + ["-Mno-emax", "-Fao", case["top"]], cwd=d, timeout=300)
             if to:
                 raise vlib.MachineryError("compiler timed out on case %s" % case["label"])
             outs.append((rc, so.decode(errors="replace"), se.decode(errors="replace")))
-        return outs
+        flen, srcs = disk_facts(d, [outs[0][1]] + [o[1] for o in outs[2:]])
+        return outs, flen, srcs
     finally:
         import shutil
         shutil.rmtree(d, ignore_errors=True)
+
+
+def observe(c, o, faults, it):
+    """Project what the compiler printed for case c (o = compile_case's result)."""
+    outs, flen, srcs = o
+    c["obs"] = G.observations(outs[0][1], outs[1][1], faults, it)
+    c["rc"] = tuple(x[0] for x in outs)
+    c["flen"] = flen
+    serial_mk = {ob["serial"]: ob["mk"] for ob in c["obs"]}
+    c["order"] = [ob["mk"] for ob in c["obs"]]
+    txi = Interner()                    # source texts: indices local to the case, 0 = none
+    reps = []
+    for (sort, preview), out in zip([(True, False)] + [EXTRA_STYLES[x][1:] for x in c.get("styles", [])], [outs[0]] + list(outs[2:])):
+        pre, fin = G.report_obs(out[1], serial_mk, srcs, txi)
+        reps.append({"sort": sort, "preview": preview, "pre": pre, "groups": fin})
+    c["reps"] = reps
+    c["raw"] = outs
+
+
+def record(c, btx, bcol):
+    rec = G.abstract_case(c)
+    rec["obs"] = [{a: o[a] for a in ("mk", "file", "line", "ln", "col", "tx")} for o in c["obs"]]
+    rec["btx"], rec["bcol"] = btx, bcol
+    rec["flen"], rec["order"], rec["reps"] = c["flen"], c["order"], c["reps"]
+    return rec
 
 
 def trace_eval(cases, cfg, nchunk):
@@ -277,10 +419,11 @@ def prepare_replay(chk, tier, build):
     fams = families(tier, rng)
     cases = []
     famfaults = {}
-    for fi, (fkey, faults, phase) in enumerate(fams):
+    fams = [f + (None,) for f in fams] + gen_families(chk, tier, rng)
+    for fi, (fkey, faults, phase, given) in enumerate(fams):
         famfaults[fi] = faults
-        vs = variants(tier, faults, phase, rng)
-        if tier == "quick" and len(faults) == 1 and phase in ("sem", "syn") and fkey not in QUICK_FULL:
+        vs = given if given is not None else variants(tier, faults, phase, rng)
+        if given is None and tier == "quick" and len(faults) == 1 and phase in ("sem", "syn") and fkey not in QUICK_FULL:
             # most single-fault families: the base layout + a seed-chosen eighth of the layouts
             vs = vs[:1] + [v for v in vs[1:] if rng.random() < 0.125]
         for vi, (lay, kw) in enumerate(vs):
@@ -289,6 +432,8 @@ def prepare_replay(chk, tier, build):
             except G.Skip:
                 continue
             c["id"] = len(cases) + 1
+            if lay == "gen":
+                c["styles"] = ["nosort", "preview"]
             c["fam"], c["famkey"], c["layout"], c["kw"], c["base"] = fi, fkey, lay, kw, (vi == 0)
             c["label"] = "%s | %s %s" % (fkey, lay, json.dumps(kw, sort_keys=True))
             c["spec"] = {"faults": [[f.kind, f.i, f.col, f.pad] for f in faults], "layout": lay, "kw": kw}
@@ -304,8 +449,8 @@ def prepare_replay(chk, tier, build):
     for c, o in zip(cases, outs):
         faults = famfaults[c["fam"]] + c["pseudo"]
         it = interners.setdefault(c["fam"], Interner())
-        c["obs"] = G.observations(o[0][1], o[1][1], faults, it)
-        c["rc"] = (o[0][0], o[1][0])
+        observe(c, o, faults, it)
+        c["shown"] = c.pop("raw")[0][1][-2500:]
         if c["base"]:
             base[c["fam"]] = c
     for c in cases:
@@ -320,10 +465,7 @@ def prepare_replay(chk, tier, build):
         for f in c["pseudo"]:            # not present in the base layout: its own text is the reference
             if f.i in own:
                 btx[f.i - 1], bcol[f.i - 1] = own[f.i]["tx"], own[f.i]["col"]
-        rec = G.abstract_case(c)
-        rec["obs"] = [{a: o[a] for a in ("mk", "file", "line", "ln", "col", "tx")} for o in c["obs"]]
-        rec["btx"], rec["bcol"] = btx, bcol
-        recs.append(rec)
+        recs.append(record(c, btx, bcol))
     return cases, recs
 
 
@@ -367,14 +509,24 @@ def recheck(build, cands):
         back[c["id"]] = (2 * n + 2, again)
     vreq, _ = trace_eval(recs, "TraceSrcPosReq", 2)
     vasw, _ = trace_eval(recs, "TraceSrcPosAsw", 2)
-    return {cid: (vreq[i], vasw[i], again["obs"]) for cid, (i, again) in back.items()}
+    return {cid: (vreq[i], vasw[i], again) for cid, (i, again) in back.items()}
+
+
+def accepted(v):
+    """the printed messages are the required ones AND every printed report is the required report"""
+    return v["match"] and v["rmatch"]
 
 
 def judge(chk, cases, recs, vreq, vasw, build=None):
     nbad = 0
     classes = {}
+    for cid, v in vreq.items():
+        if not isinstance(cid, tuple) and cid != "broken" and not v["rfaith"]:
+            chk.violation("the required design's report differs from the required report on replay case %s" % cid, v,
+                          key={"model": "TraceSrcPosReq", "inv": "RepFaithful"})
+            break
     # second execution of the first unexpected rejections (harness flakiness must not raise an alarm)
-    odd = [c for c in cases if c["id"] in vreq and c["id"] in vasw and not vreq[c["id"]]["match"] and not vasw[c["id"]]["match"]]
+    odd = [c for c in cases if c["id"] in vreq and c["id"] in vasw and not accepted(vreq[c["id"]]) and not accepted(vasw[c["id"]])]
     second = recheck(build, odd[:MAX_REPLAYS]) if (odd and build) else {}
     flaky = []
     for c, rec in zip(cases, recs):
@@ -385,29 +537,33 @@ def judge(chk, cases, recs, vreq, vasw, build=None):
             raise vlib.MachineryError("no TLC verdict for case %d (%s)" % (cid, c["label"]))
         vr, va = vreq[cid], vasw[cid]
         if cid in second:
-            vr2, va2, obs2 = second[cid]
-            if vr2["match"] or va2["match"]:
-                flaky.append({"case": c["label"], "first": rec["obs"], "second": [{a: o[a] for a in ("mk", "file", "line", "ln", "col")} for o in obs2]})
+            vr2, va2, again = second[cid]
+            obs2 = again["obs"]
+            if accepted(vr2) or accepted(va2):
+                flaky.append({"case": c["label"][:300], "first": rec["obs"], "second": [{a: o[a] for a in ("mk", "file", "line", "ln", "col")} for o in obs2]})
             vr, va = vr2, va2
-            c = dict(c, obs=obs2)
+            c = dict(c, obs=obs2, reps=again["reps"], shown=again["raw"][0][1][-2500:])
         faults = c["famkey"]
         nontrivial = vr["nplanted"] > 0
         chk.case((c["famkey"], c["layout"], json.dumps(c["kw"], sort_keys=True)), nontrivial=nontrivial)
         chk.traces += 1
         if len(chk.samples) < 4 and (cid % 97 == 1):
-            chk.sample({"case": c["label"], "required": vr["expect"], "observed": rec["obs"], "verdict": "match" if vr["match"] else "MISMATCH"})
-        if vr["match"]:
+            chk.sample({"case": c["label"][:300], "required": vr["expect"], "observed": rec["obs"], "required_report": vr["report"],
+                        "observed_report": rec["reps"][0]["groups"], "verdict": "match" if accepted(vr) else "MISMATCH"})
+        if accepted(vr):
             continue
-        if va["match"]:
-            cause = "+".join(x for x, n in (("colovf", va["unfaithful_ovf"]), ("linetable", va["unfaithful_other"])) if n) or "none"
+        if accepted(va):
+            cause = "+".join(x for x, n in (("colovf", va["unfaithful_ovf"]), ("linetable", va["unfaithful_other"]),
+                                            ("nohead", va["nohead"])) if n) or "none"
             key = {"shape": "as-written", "cause": cause}
             if cause != "colovf":
                 key["layout"] = c["layout"]
         else:
             key = {"shape": "other", "family": faults, "layout": c["layout"], "kw": c["kw"]}
         classes[json.dumps(key, sort_keys=True)] = classes.get(json.dumps(key, sort_keys=True), 0) + 1
-        what = "diagnostic positions differ from the required ones: %s" % c["label"]
+        what = "%s differ from the required ones: %s" % ("diagnostic positions" if not vr["match"] else "the printed reports (headings, echoed source, carets)", c["label"][:400])
         detail = {"case": c["label"], "required": vr["expect"], "as_written_model": va["expect"],
+                  "required_report": vr["report"], "observed_reports": c["reps"], "printed": c.get("shown", ""),
                   "observed": [{a: o[a] for a in ("mk", "file", "line", "ln", "col", "text")} for o in c["obs"]],
                   "files": {n: [{a: b for a, b in it.items() if a != "_texts"} for it in its] for n, its in c["files"].items()},
                   "rc": c["rc"], "spec": c["spec"]}
@@ -494,9 +650,9 @@ def _one_case(build, spec, cid=1):
     it = Interner()
     for n, x in enumerate((base, c)):
         x["id"], x["label"] = cid + n, "replay"
-        o = compile_case(build, x)
-        x["obs"] = G.observations(o[0][1], o[1][1], faults + x["pseudo"], it)
-        x["raw"] = o
+        if x is c and spec["layout"] == "gen":
+            x["styles"] = ["nosort", "preview"]
+        observe(x, compile_case(build, x), faults + x["pseudo"], it)
     ids = [f.i for f in faults] + [f.i for f in c["pseudo"]]
     recs = []
     for x in (base, c):
@@ -504,10 +660,7 @@ def _one_case(build, spec, cid=1):
         for o in base["obs"] + [o for o in x["obs"] if o["mk"] in [f.i for f in x["pseudo"]]]:
             if 1 <= o["mk"] <= max(ids):
                 btx[o["mk"] - 1], bcol[o["mk"] - 1] = o["tx"], o["col"]
-        rec = G.abstract_case(x)
-        rec["obs"] = [{a: o[a] for a in ("mk", "file", "line", "ln", "col", "tx")} for o in x["obs"]]
-        rec["btx"], rec["bcol"] = btx, bcol
-        recs.append(rec)
+        recs.append(record(x, btx, bcol))
     return base, c, recs
 
 
